@@ -1801,7 +1801,9 @@ fn judge(c: &Case, bytes: &[u8]) -> Result<Judged, String> {
         Expect::Field { name, default, m1 } => {
             let got = table_field(&font, name)?;
             if got != *default {
-                bad(classify(c, *default, got), format!("{name} = {got}, source {default}"));
+                // a maxp maximum is taken over all glyphs: a truncated count hides behind the others
+                let class = if name.starts_with("maxp.max") && *default > c.hi { "truncated" } else { classify(c, *default, got) };
+                bad(class, format!("{name} = {got}, source {default}"));
             }
             if let Some((tag, v1)) = m1 {
                 let dl = mvar_delta(&font, tag, &m1c)?;
@@ -2018,7 +2020,13 @@ fn main() {
         }
     }
 
-    let cases = enumerate(args.tier);
+    let mut cases = enumerate(args.tier);
+    // development aid: `--only <substring of the case id>` (the evidence then says so)
+    if let Some(i) = args.rest.iter().position(|a| a == "--only") {
+        let pat = args.rest.get(i + 1).cloned().unwrap_or_default();
+        cases.retain(|c| c.id().contains(&pat));
+        rep.assume(&format!("PARTIAL RUN: only cases whose id contains '{pat}'"));
+    }
     let (mut small, big): (Vec<Case>, Vec<Case>) = cases.into_iter().partition(|c| c.big_glyphs.is_none());
     if args.tier == vcore::Tier::Thorough {
         // the quick tier's cases first, so that a time cap cuts the extended alphabet, not the core
